@@ -958,6 +958,11 @@ func (w *srvWorld) checkC09(final bool) {
 				}
 			}
 		default:
+			if a.ErrV == nil {
+				// success without anything the peer sent: neither a reply nor an error
+				r.Fail("callback-foreign-reply", "Callback %s (id %s) returned success with the result %q, but the peer sent no such reply for that id (replies for it: %+v; server stopped: %v)", a.Tag, id, a.Result, replies, stopped)
+				return
+			}
 			if !stopped && w.sEnd.NSendFault == 0 {
 				r.Fail("wrong-outcome", "Callback %s returned error %q although nothing had failed", a.Tag, a.Err)
 				return
